@@ -101,7 +101,39 @@ def plan_c09(ctx):
     return r
 
 
+COMPACT_MCS = [dict(module='MC_Compact', cfg='MC_Compact_subsets'), dict(module='MC_Compact', cfg='MC_Compact_antichains'),
+               dict(module='MC_Compact', cfg='MC_Compact_faces'), dict(module='MC_Compact', cfg='MC_Compact_lowres')]
+
+
+def plan_c08(ctx):
+    r = standard(ctx, COMPACT_MCS,
+                 rule='inputs enumerated by MC_Compact (all subsets of an interleaving low-resolution universe, antichains below a quintant, '
+                      'per-face modes, overlapping low-res mixes), repository fixtures, seeded antichains by recursive subdivision/deletion '
+                      'from any root incl. the world cell up to res 29, overlapping ancestor/descendant mixes; each set is compacted in >=3 '
+                      'orders/multiplicities. distinct_nontrivial = input sets',
+                 assumptions=['cover equality is decided on cell descriptions by the canonical-form theorem checked in MC_Compact',
+                              'IDs decoded by the spec (C05)'])
+    r['distinct_nontrivial'] = int(r['summary'].get('compact_sets', 0))
+    return r
+
+
+def plan_c10(ctx):
+    # the algorithm of the pinned v0.6.2 tree is kept as a model variant: TLC must still find its
+    # documented counterexamples (a spec regression test; independent of /repo)
+    docs = [dict(module='MC_Compact', cfg='MC_Compact_v062', expect='violation'),
+            dict(module='MC_Compact', cfg='MC_Compact_v062_dup', expect='violation'),
+            dict(module='MC_Compact', cfg='MC_Compact_v062_sorted', expect='violation')]
+    r = standard(ctx, COMPACT_MCS + docs,
+                 rule='non-overlapping inputs enumerated by MC_Compact, fixtures, seeded antichains and low-resolution face mixes; each is '
+                      'compacted twice; pairs (A, refinement of A) with equal cover. distinct_nontrivial = compact calls on antichains',
+                 assumptions=['IDs decoded by the spec (C05)'])
+    r['distinct_nontrivial'] = int(r['summary'].get('compact_calls', 0))
+    return r
+
+
 PLANS = {
+    'C08': plan_c08,
+    'C10': plan_c10,
     'C05': plan_c05,
     'C20': plan_c20,
     'C07': plan_c07,
